@@ -1,5 +1,5 @@
 """Components for the auto_cli check (C12). Every callee logs its call and returns a value built from its arguments."""
-from typing import List, Literal, Optional
+from typing import Dict, List, Literal, Optional
 
 CALLS = []
 
@@ -28,6 +28,12 @@ def f4(values: int = 1, items: str = "i", keys: Optional[int] = None, *, get: bo
     return ("f4", values, items, keys, get)
 
 
+def f5(seq: Optional[List[int]], mode: Optional[Literal["a", "b"]], *, table: Optional[Dict[str, int]]):
+    """Optional parameters without default whose inner type is not a plain class: options defaulting to None."""
+    CALLS.append(("f5", dict(seq=seq, mode=mode, table=table)))
+    return ("f5", seq, mode, table)
+
+
 class K1:
     """A class with two methods."""
 
@@ -53,6 +59,7 @@ PARAMS = {
     "f2": [("items", REQUIRED, "[1, 2]", [1, 2]), ("opt", None, "1.5", 1.5)],
     "f3": [("lit", "x", "y", "y"), ("n", 3, "9", 9)],
     "f4": [("values", 1, "9", 9), ("items", "i", "zed", "zed"), ("keys", None, "5", 5), ("get", False, "true", True)],
+    "f5": [("seq", None, "[3, 4]", [3, 4]), ("mode", None, "b", "b"), ("table", None, '{"k": 2}', {"k": 2})],
     "K1.__init__": [("p", REQUIRED, "4", 4), ("q", 2, "6", 6)],
     "K1.m1": [("r", 1, "8", 8)],
     "K1.m2": [("s", REQUIRED, "word", "word"), ("t", None, "5", 5)],
